@@ -21,7 +21,8 @@ LEVEL = 'exploration'
 RULE = ('a case is one catalogue (origin: hand-built objects with Python scalars / objects re-loaded from a csv or '
         'FITS table, i.e. numpy scalar attributes / real finder output on a rendered image; recipe: targeted '
         'first-row-atypical, NaN-in-every-float-field, -1-in-every-err-field, extreme magnitudes, uuid lengths, '
-        'single types, or a seeded random mix of 1..3000 rows); an evaluation is one (catalogue, format, variant, '
+        'single types, or a seeded random mix of 1..3000 rows; write sequences A-then-B to the same file name for all '
+        '49 ordered pairs of type mixes); an evaluation is one (catalogue, format, variant, '
         'reader) round trip through save_catalog; non-trivial = the file(s) were written and at least one row was '
         'compared cell by cell; distinct = distinct case dicts (targeted cases do not depend on the seed)')
 ASSUMPTIONS = ['astropy.io.ascii / astropy.io.votable / astropy.io.fits / sqlite3 are trusted as *direct* readers of the files',
@@ -35,7 +36,7 @@ MIN_REACH = {'catalogs:save_catalog': 1, 'catalogs:write_catalog.<locals>.writer
 MIN_COUNTERS = {'roundtrips_aegean_reader': 100, 'roundtrips_direct_reader': 50, 'roundtrips_sqlite': 30,
                 'cells_float': 10000, 'cells_nan': 500, 'cells_minus1': 100, 'cells_int': 2000, 'cells_str': 2000,
                 'origin_hand': 5, 'origin_reload_csv': 3, 'origin_reload_fits': 2, 'origin_finder': 1,
-                'files_checked': 100, 'first_row_atypical_catalogues': 3, 'overwrites': 50}
+                'files_checked': 100, 'first_row_atypical_catalogues': 3, 'overwrites': 50, 'sequence_writes': 200, 'sequence_writes_sqlite': 80}
 BATCHES_PER_JOB = 4
 
 TABLE_FORMATS = ['csv', 'tab', 'tex', 'vot', 'xml', 'fits']
@@ -168,7 +169,9 @@ def _hand_catalogue(case, rng):
         opt = dict(p_nan=case.get('p_nan', 0.05), p_m1=case.get('p_m1', 0.15), p_extreme=case.get('p_extreme', 0.2),
                    p_int0=case.get('p_int0', 0.03))
         for i in range(n):
-            cat.append(_make(cl[mix[int(rng.integers(0, len(mix)))]], rng, opt, i))
+            # with `every_type` each type of the mix is present (round robin), otherwise drawn at random
+            key = mix[i % len(mix)] if case.get('every_type') else mix[int(rng.integers(0, len(mix)))]
+            cat.append(_make(cl[key], rng, opt, i))
     elif recipe.startswith('first_'):
         flav = recipe[len('first_'):]
         for key in case.get('mix', ['comp', 'isle', 'simp']):
@@ -410,7 +413,7 @@ def _compare_rows(o, fmt, how, clsname, names, exp_rows, got_rows, ctx):
             break
 
 
-def _roundtrip_table(o, cat, exp, fmt, variant, workdir, ctx):
+def _roundtrip_table(o, cat, exp, fmt, variant, workdir, ctx, prior=None):
     from AegeanTools import catalogs
     cl = {'ComponentSource': 'comp', 'IslandSource': 'isle', 'SimpleSource': 'simp'}
     classes = _classes()
@@ -424,7 +427,12 @@ def _roundtrip_table(o, cat, exp, fmt, variant, workdir, ctx):
     try:
         with warnings.catch_warnings():
             warnings.simplefilter('ignore')
-            if variant == 'plain':
+            if prior is not None:
+                # write sequence: another catalogue (other type mix) was saved under the same name before
+                catalogs.save_catalog(base, copy.deepcopy(prior), meta=meta, prefix=prefix)
+                o.count('overwrites')
+                o.count('sequence_writes')
+            elif variant == 'plain':
                 # the files already exist (other content, other order) when the catalogue is written: the
                 # second write must replace them
                 catalogs.save_catalog(base, copy.deepcopy(cat[::-1][:max(1, len(cat) - 1)]) + copy.deepcopy(cat[:1]),
@@ -437,7 +445,10 @@ def _roundtrip_table(o, cat, exp, fmt, variant, workdir, ctx):
     want = sorted('cat%s.%s' % (SUFFIX[k], fmt) for k in exp if exp[k])
     have = sorted(os.listdir(d))
     o.count('files_checked', len(want))
-    if want != have:
+    # a sibling file left by an earlier catalogue of another type mix is not judged (the statement is about the
+    # files a write produces); every file this write produces must exist and hold exactly this catalogue
+    stale_ok = set('cat%s.%s' % (SUFFIX[type(s_).__name__], fmt) for s_ in (prior or []))
+    if not (set(want) <= set(have) and set(have) <= set(want) | stale_ok):
         _viol(o, 'files', dict(ctx, format=fmt, expected=want, found=have))
     for clsname, rows in exp.items():
         if not rows:
@@ -483,7 +494,7 @@ def _roundtrip_table(o, cat, exp, fmt, variant, workdir, ctx):
     shutil.rmtree(d, ignore_errors=True)
 
 
-def _roundtrip_db(o, cat, exp, fmt, workdir, ctx):
+def _roundtrip_db(o, cat, exp, fmt, workdir, ctx, prior=None):
     from AegeanTools import catalogs
     classes = _classes()
     cl = {'ComponentSource': 'comp', 'IslandSource': 'isle', 'SimpleSource': 'simp'}
@@ -494,8 +505,12 @@ def _roundtrip_db(o, cat, exp, fmt, workdir, ctx):
     try:
         with warnings.catch_warnings():
             warnings.simplefilter('ignore')
-            catalogs.save_catalog(path, copy.deepcopy(cat[::-1]), meta={'PROGRAM': 'other'})   # to be replaced
+            # to be replaced: the same catalogue reversed, or (write sequence) a catalogue of another type mix
+            catalogs.save_catalog(path, copy.deepcopy(prior if prior is not None else cat[::-1]), meta={'PROGRAM': 'other'})
             o.count('overwrites')
+            if prior is not None:
+                o.count('sequence_writes')
+                o.count('sequence_writes_sqlite')
             catalogs.save_catalog(path, copy.deepcopy(cat), meta={'PROGRAM': 'aegmon'})
     except Exception:
         _viol(o, 'raises', dict(ctx, format=fmt, where='save_catalog', traceback=traceback.format_exc()[-700:]))
@@ -510,7 +525,18 @@ def _roundtrip_db(o, cat, exp, fmt, workdir, ctx):
         tables = sorted(r[0] for r in con.execute("SELECT name FROM sqlite_master WHERE type='table'"))
         want = sorted([DBTABLE[k] for k in exp if exp[k]] + ['meta'])
         if tables != want:
-            _viol(o, 'sqlite_tables', dict(ctx, format=fmt, expected=want, found=tables))
+            stale = {}
+            for tn in tables:
+                if tn not in want:
+                    cols = [c[1] for c in con.execute('PRAGMA table_info(%s)' % tn)]
+                    stale[tn] = {'rows': con.execute('SELECT COUNT(*) FROM %s' % tn).fetchone()[0],
+                                 'uuids': [r[0] for r in con.execute('SELECT uuid FROM %s LIMIT 3' % tn)]
+                                 if 'uuid' in cols else None}
+            _viol(o, 'sqlite_tables', dict(ctx, format=fmt, expected=want, found=tables, rows_not_in_catalogue=stale))
+        if prior is not None:
+            got_meta = dict(con.execute('SELECT key, val FROM meta').fetchall()) if 'meta' in tables else {}
+            if got_meta.get('PROGRAM') != 'aegmon':
+                _viol(o, 'sqlite_meta_stale', dict(ctx, format=fmt, meta=got_meta))
         for clsname, rows in exp.items():
             if not rows or DBTABLE[clsname] not in tables:
                 continue
@@ -564,6 +590,14 @@ def cases(seed, tier):
         for mix in (['comp'], ['isle'], ['simp']):
             add('hand', recipe='random', n=n, mix=mix, seed=[0, 'tiny', n, mix[0]], variants=('plain',))
     add('finder', recipe='finder', nsrc=8, seed=[0, 'finder'])
+    # write sequences to the same file name: catalogue A (one type mix) then catalogue B (another): all ordered
+    # pairs of non-empty subsets of {components, islands, simples}
+    subsets = [['comp'], ['isle'], ['simp'], ['comp', 'isle'], ['comp', 'simp'], ['isle', 'simp'], ['comp', 'isle', 'simp']]
+    for ia, A in enumerate(subsets):
+        for ib, B in enumerate(subsets):
+            add('hand' if (ia + ib) % 3 else 'reload_csv', recipe='random', n=len(B) * 2, mix=B, every_type=True,
+                prior_mix=A, prior_n=len(A) * 3, variants=('plain',) if (ia + ib) % 2 else ('plain', 'prefix_meta'),
+                p_nan=0.05, seed=[0, 'sequence', ia, ib])
     # --- seeded random sample
     sizes = [1, 3, 10, 40, 150, 600, 1500] if quick else [1, 2, 3, 5, 10, 20, 40, 80, 150, 300, 600, 1200, 3000, 3000]
     reps = 4 if quick else 12
@@ -599,12 +633,21 @@ def run(case):
             for n in type(s).names:
                 o.see('attribute_types', type(getattr(s, n)).__name__)
         ctx = {'origin': case['origin'], 'recipe': case.get('recipe')}
+        prior = None
+        if case.get('prior_mix') is not None:
+            # the catalogue saved under the same file name before: other sources, possibly other types
+            with warnings.catch_warnings():
+                warnings.simplefilter('ignore')
+                prior = build_catalogue(dict(case, mix=case['prior_mix'], n=case.get('prior_n', 4),
+                                             seed=list(case['seed']) + ['prior']), workdir)
+            ctx['sequence'] = '%s then %s' % ('+'.join(case['prior_mix']), '+'.join(case['mix']))
+            o.see('write_sequences', ctx['sequence'])
         for fmt in case['formats']:
             if fmt in DB_FORMATS:
-                _roundtrip_db(o, cat, exp, fmt, workdir, ctx)
+                _roundtrip_db(o, cat, exp, fmt, workdir, ctx, prior=prior)
             else:
                 for variant in case['variants']:
-                    _roundtrip_table(o, cat, exp, fmt, variant, workdir, ctx)
+                    _roundtrip_table(o, cat, exp, fmt, variant, workdir, ctx, prior=prior)
         o.sample = {'n_sources': len(cat), 'per_type': {k: len(v) for k, v in exp.items()},
                     'first': {k: {n: repr(v) for n, v in list(rows[0].items())[:8]} for k, rows in exp.items() if rows}}
         return o.result()
